@@ -103,7 +103,8 @@ pub fn whatwg_tokens(input: &str) -> Vec<Tok> {
                 inner: TreeBuilder::new(RcDom::default(), TreeBuilderOpts::default()),
                 tokens: RefCell::new(&mut tokens),
             },
-            TokenizerOpts::default(),
+            // the BOM is handled by the decoding layer, not by the tokenizer proper
+            TokenizerOpts { discard_bom: false, ..TokenizerOpts::default() },
         );
         while let TokenizerResult::Script(_) = t.feed(&b) {}
         t.end();
